@@ -194,3 +194,24 @@ Proof.
     destruct (is_free c a); cbn [negb]; [destruct sn; reflexivity | reflexivity].
   - destruct sn; reflexivity.
 Qed.
+
+(* ---------------------------------------------------------------- nfc.llcp.socket.Socket *)
+(* The application's handle passes every argument through unchanged: an operation of the model on socket id i IS the
+   wrapper's operation with the controller's operation plugged in (the generator accepts nothing but
+   `return self.llc.M(self._tco, <parameters>)`; an argument test such as `if not address:` fails the translation). *)
+Lemma bridge_socket_bind c i arg : gen_c17_Socket_bind (do_bind c) i arg = do_bind c i arg.
+Proof. reflexivity. Qed.
+Lemma bridge_socket_connect c i d : gen_c17_Socket_connect (do_connect c) i d = do_connect c i d.
+Proof. reflexivity. Qed.
+Lemma bridge_socket_sendto c i msg d (flags : unit) :
+  gen_c17_Socket_sendto (fun i msg d (_ : unit) => do_sendto c i msg d) i msg d flags = do_sendto c i msg d.
+Proof. reflexivity. Qed.
+Lemma bridge_socket_others c i b n k :
+  gen_c17_Socket_listen (do_listen c) i b = do_listen c i b /\
+  gen_c17_Socket_accept (do_accept c) i = do_accept c i /\
+  gen_c17_Socket_recvfrom (do_recvfrom c) i = do_recvfrom c i /\
+  gen_c17_Socket_close (do_close c) i = do_close c i /\
+  gen_c17_Socket_getsockname (fun i => lstep c (LGetsockname i)) i = lstep c (LGetsockname i) /\
+  gen_c17_Socket_setsockopt (fun i (_ : unit) v => do_rcvbuf c i v) i tt b = do_rcvbuf c i b /\
+  gen_c17_Socket_resolve (fun n => do_resolve c n k) n = do_resolve c n k.
+Proof. repeat split; reflexivity. Qed.
